@@ -111,12 +111,59 @@ fn name_excused_in_range(msg: &[u8], pos: usize, limit: usize) -> bool {
     }
 }
 
-/// Record types for which typed accept/reject agreement is asserted: the
-/// RFC 1035 / RFC 3596 types whose format rules (fixed fields, compressible
-/// names) are the same in both codecs. For the other common types the two
-/// codecs deliberately validate differently (RFC-mandated "no compression",
-/// minimum lengths, ...); those differences are counted, not asserted.
-const K_CORE: &[u16] = &[1, 2, 5, 6, 12, 15, 28];
+/// Record types for which typed accept/reject agreement is asserted (modulo
+/// the whitelist rules): every type both codecs parse except ZONEMD (63),
+/// where the established codec enforces the RFC 8976 minimum digest length
+/// and the new one does not -- that difference is counted, not asserted.
+const K_CORE: &[u16] = &[1, 2, 5, 6, 12, 13, 15, 16, 17, 28, 33, 39, 41, 43, 46, 47, 48, 50, 51];
+
+static WL_NOCOMP: AtomicU64 = AtomicU64::new(0);
+static WL_EMPTY_TXT: AtomicU64 = AtomicU64::new(0);
+
+/// Third whitelist RULE (typed RDATA only, direction established=accept /
+/// new=reject): the new codec follows the RFCs' "MUST NOT be compressed" for
+/// the names in SRV (RFC 2782), DNAME (RFC 6672 2.1; "This domain name
+/// *cannot* be compressed in DNS messages", src/new/rdata/dname.rs:36),
+/// RRSIG signer and NSEC next name (RFC 4034 3.1.7, 4.1.1) by parsing them
+/// with the compression-less parser (src/new/rdata/mod.rs parse_record_data),
+/// while the established codec decompresses them as RFC 3597 4 suggests; and
+/// it requires a TXT record to hold at least one character string
+/// (src/new/rdata/basic/txt.rs:39 and :121). The rule is evaluated by the
+/// harness on the octets: is the name at the type's name position written
+/// with a pointer / is the TXT RDATA empty.
+fn typed_reject_documented(msg: &[u8], it: &Item) -> bool {
+    if it.t == 16 {
+        if it.rdata.is_empty() {
+            WL_EMPTY_TXT.fetch_add(1, AO::Relaxed);
+            return true;
+        }
+        return false;
+    }
+    let off = match it.t {
+        33 => 6,
+        39 | 47 => 0,
+        46 => 18,
+        _ => return false,
+    };
+    let Ok((_, owner_end, _)) = ref_name(msg, it.pos, Rule::Rfc) else { return false };
+    let rd = owner_end + 10;
+    let rd_end = rd + it.rdata.len();
+    let mut p = rd + off;
+    while p < rd_end {
+        let b = msg[p] as usize;
+        if b == 0 {
+            return false;
+        } else if b < 64 {
+            p += 1 + b;
+        } else if b >= 0xC0 {
+            WL_NOCOMP.fetch_add(1, AO::Relaxed);
+            return true;
+        } else {
+            return false;
+        }
+    }
+    false
+}
 
 static STRICTNESS: std::sync::Mutex<std::collections::BTreeMap<String, u64>> = std::sync::Mutex::new(std::collections::BTreeMap::new());
 
@@ -130,7 +177,7 @@ fn typed_excused(msg: &[u8], it: &Item) -> bool {
     match it.t {
         2 | 5 | 12 => positions.push(rd),
         15 => positions.push(rd + 2),
-        6 => {
+        6 | 17 => {
             positions.push(rd);
             if let Ok((_, e, _)) = ref_name(msg, rd, Rule::Rfc) {
                 positions.push(e);
@@ -958,7 +1005,14 @@ fn compare_messages(cx: &Cx, o: &MsgObs, n: &MsgObs) -> bool {
                     }
                 }
                 (Err(()), Err(())) => bump(ut, 1),
-                (Ok(_), Err(())) if typed_excused(msg, &o.items[i]) => bump(ut, 2),
+                (Ok(_), Err(())) if typed_excused(msg, &o.items[i]) || typed_reject_documented(msg, &o.items[i]) => bump(ut, 2),
+                // NSEC: the new codec validates the type bitmap (window order,
+                // RFC 4034 4.1.2), the established codec does not: semantic
+                // validation, not wire format -- counted, not asserted
+                (Ok(_), Err(())) if t == 47 => {
+                    bump(ut, 4);
+                    *STRICTNESS.lock().unwrap().entry("rtype=47|old=accept,new=reject|name-uncompressed".into()).or_insert(0) += 1;
+                }
                 (Ok(a), Err(())) => {
                     bump(ut, 3);
                     cx.viol(&format!("C19|parse|unit=typed-record|rtype={t}|old=accept,new=reject"), &format!("item {i} at {}: RDATA {} of type {t}: established typed parser accepts (recomposed {}), new typed parser rejects", o.items[i].pos, hex(&o.items[i].rdata), hex(&a.1)));
@@ -1137,7 +1191,7 @@ fn name_variants(pos: usize, landmarks: &[usize], full: bool) -> Vec<Vec<u8>> {
 /// absolute position where the name will sit.
 fn rdata_variants(rtype: u16, rd_pos: usize, full: bool) -> Vec<Vec<u8>> {
     let ptr = |t: usize| vec![0xC0 | ((t >> 8) as u8 & 0x3F), t as u8];
-    let nm: Vec<Vec<u8>> = if full { vec![vec![1, b'b', 0], ptr(12), ptr(rd_pos), vec![]] } else { vec![vec![1, b'b', 0], ptr(12)] };
+    let nm: Vec<Vec<u8>> = if full { vec![vec![1, b'b', 0], ptr(12), ptr(rd_pos), vec![], [&[1u8, b'c'][..], &ptr(12)[..]].concat()] } else { vec![vec![1, b'b', 0], ptr(12)] };
     let cat = |parts: &[&[u8]]| parts.iter().flat_map(|p| p.iter().cloned()).collect::<Vec<u8>>();
     let mut good: Vec<Vec<u8>> = Vec::new();
     let mut extra: Vec<Vec<u8>> = Vec::new();
@@ -1153,6 +1207,10 @@ fn rdata_variants(rtype: u16, rd_pos: usize, full: bool) -> Vec<Vec<u8>> {
             for n in &nm {
                 good.push(cat(&[n, &[1, b'r', 0], &[0; 20]]));
             }
+            for n in &nm {
+                extra.push(cat(&[&[1, b'm', 0], n, &[0; 20]])); // second name position
+            }
+            extra.push(cat(&[&ptr(12), &ptr(12), &[0; 20]]));
             extra.push(cat(&[&ptr(12), &ptr(12), &[0; 19]]));
             extra.push(cat(&[&ptr(12), &ptr(12), &[0; 21]]));
         }
@@ -1166,6 +1224,10 @@ fn rdata_variants(rtype: u16, rd_pos: usize, full: bool) -> Vec<Vec<u8>> {
             for n in &nm {
                 good.push(cat(&[n, &[1, b'e', 0]]));
             }
+            for n in &nm {
+                extra.push(cat(&[&[1, b'm', 0], n])); // second name position
+            }
+            extra.push(cat(&[&ptr(12), &ptr(12)]));
         }
         16 => {
             good.push(vec![3, b'a', b'b', b'c']);
@@ -1310,7 +1372,7 @@ fn rdata_variants(rtype: u16, rd_pos: usize, full: bool) -> Vec<Vec<u8>> {
     v
 }
 
-const TYPES_FULL: &[u16] = &[1, 2, 5, 6, 12, 13, 14, 15, 16, 17, 28, 33, 35, 39, 41, 43, 44, 45, 46, 47, 48, 50, 51, 52, 59, 60, 61, 63, 64, 65, 250, 257, 10, 3, 65280];
+const TYPES_FULL: &[u16] = &[1, 2, 5, 6, 7, 8, 9, 12, 13, 14, 15, 16, 17, 28, 33, 35, 39, 41, 43, 44, 45, 46, 47, 48, 50, 51, 52, 59, 60, 61, 63, 64, 65, 250, 257, 10, 3, 65280];
 const TYPES_REDUCED: &[u16] = &[1, 5, 6, 16, 41, 47, 64, 250];
 
 #[derive(Clone)]
@@ -1448,7 +1510,43 @@ fn build_names() -> Vec<Vec<u8>> {
     for i in 0..LRU_FILLERS {
         v.push(wire_of(&[format!("f{i:02}").as_bytes()]));
     }
+    // names of the bit-5 family (indices FOLD0 ..)
+    assert_eq!(v.len(), FOLD0);
+    v.push(wire_of(&[b"example"]));
+    for b in FOLD_BYTES {
+        v.push(wire_of(&[&[b'a', b], b"example"]));
+        v.push(wire_of(&[b"www", &[b'a', b], b"example"]));
+    }
     v
+}
+
+/// Bit-5 family: octets together with their partner `b ^ 0x20`: control /
+/// punctuation / digit pairs (not equal under DNS case folding) and letter
+/// pairs (equal). For each octet b the names `a<b>.example.` and
+/// `www.a<b>.example.`.
+const FOLD_BYTES: [u8; 20] = [0x00, 0x20, 0x10, 0x30, 0x0D, 0x2D, 0x1F, 0x3F, 0x40, 0x60, 0x5B, 0x7B, 0x5F, 0x7F, 0x41, 0x61, 0x5A, 0x7A, 0x01, 0x21];
+const FOLD0: usize = LRU_FILL0 + LRU_FILLERS;
+
+/// item = (name number 0..40, kind): kind 0 = answer A record owned by the
+/// name, kind 1 = answer NS record owned by example. with the name as target.
+fn fold_ops(items: &[usize]) -> Vec<Op> {
+    items
+        .iter()
+        .map(|it| {
+            let (n, kind) = (FOLD0 + 1 + it / 2, it % 2);
+            if kind == 0 {
+                Op::R(1, n, Rd::A)
+            } else {
+                Op::R(1, FOLD0, Rd::Ns(n))
+            }
+        })
+        .collect()
+}
+
+fn run_fold_case(ctx: &Ctx, stats: &Stats, bs: &BuildStats, wd: &Watchdog, items: &[usize], names: &[Vec<u8>]) {
+    let ops = fold_ops(items);
+    let key = items.iter().fold(0x51ED270B5F4A7C15u64, |h, i| (h ^ (*i as u64 + 1)).wrapping_mul(0x100000001b3));
+    run_build_ops(ctx, stats, bs, wd, &ops, &json!({"part": "build-fold", "items": items}), key, names);
 }
 
 /// Long-script family: names 6..=9 are P, C.P, X, C.X; then unrelated fillers.
@@ -1465,7 +1563,13 @@ fn name_text(names: &[Vec<u8>], n: usize) -> String {
     let mut p = 0;
     while w[p] != 0 {
         let l = w[p] as usize;
-        out.push_str(&String::from_utf8_lossy(&w[p + 1..p + 1 + l]));
+        for &b in &w[p + 1..p + 1 + l] {
+            if b.is_ascii_graphic() && b != b'.' && b != b'\\' {
+                out.push(b as char);
+            } else {
+                out.push_str(&format!("\\{b:03}"));
+            }
+        }
         out.push('.');
         p += 1 + l;
     }
@@ -1897,7 +2001,9 @@ struct BuildStats {
 
 fn cause_of(ops: &[Op], len: usize) -> &'static str {
     let uses = |n: usize| ops.iter().any(|o| matches!(o, Op::Q(x) | Op::R(_, x, _) if *x == n) || matches!(o, Op::R(_, _, Rd::Ns(x) | Rd::Cname(x)) if *x == n));
-    if ops.len() > 32 {
+    if ops.iter().any(|o| matches!(o, Op::R(_, x, _) if *x >= FOLD0) || matches!(o, Op::R(_, _, Rd::Ns(x)) if *x > FOLD0)) {
+        "names-differing-in-bit-0x20-of-an-octet"
+    } else if ops.len() > 32 {
         "more-than-32-names-in-message"
     } else if len > 0x4000 && ops.iter().any(|o| matches!(o, Op::PadTo(_))) {
         "message-crosses-offset-0x4000"
@@ -2091,7 +2197,13 @@ fn main() {
         let v: Value = serde_json::from_str(&std::fs::read_to_string(path).expect("replay file")).expect("json");
         let case = &v["case"];
         println!("replaying {}", v["signature"]);
-        if case["part"].as_str() == Some("build-long") {
+        if case["part"].as_str() == Some("build-fold") {
+            let items: Vec<usize> = case["items"].as_array().expect("items").iter().map(|x| x.as_u64().unwrap() as usize).collect();
+            for o in fold_ops(&items) {
+                println!("  {}", op_desc(o, &names));
+            }
+            run_fold_case(&ctx, &stats, &bs, &wd, &items, &names);
+        } else if case["part"].as_str() == Some("build-long") {
             let arr = |k: &str| -> Vec<usize> { case[k].as_array().expect("array").iter().map(|x| x.as_u64().unwrap() as usize).collect() };
             let (head, k, tail) = (arr("head"), case["fillers"].as_u64().expect("fillers") as usize, arr("tail"));
             for o in lru_ops(&head, k, &tail) {
@@ -2267,6 +2379,16 @@ fn main() {
             }
         }
     }
+    // bit-5 family: every sequence of 1..fold_len items
+    let fold_len = if quick { 2 } else { 3 };
+    let fold_alphabet: Vec<usize> = (0..FOLD_BYTES.len() * 4).collect();
+    for d in 1..=fold_len {
+        (0..pow(fold_alphabet.len(), d)).into_par_iter().for_each(|k| {
+            let mut it = Vec::new();
+            nth_string(&fold_alphabet, d, k, &mut it);
+            run_fold_case(&ctx, &stats, &bs, &wd, &it, &names);
+        });
+    }
     stats.count_n("gen.long_scripts", long_cases.len() as u64);
     long_cases.par_iter().for_each(|(h, k, t)| run_lru_case(&ctx, &stats, &bs, &wd, &heads[*h], *k, &tails[*t], &names));
 
@@ -2293,7 +2415,7 @@ fn main() {
         "distinct_nontrivial": stats.nontrivial.load(AO::Relaxed).min(stats.distinct_count()),
         "rule": "Part 1: one case = one message (C01 grammar: header variants x 1..2 items (quick) / 1..3 items (thorough) from per-field menus with pointers to every landmark; every truncation of short one-item messages; every raw body over 9 symbols to raw_len after 4 headers) with every unit (compressed name in 4 views + UnparsedName, flat name in 3 views, question and record in 2 views each, character string) parsed at every landmark offset (raw: every offset) and the whole message parsed through the iterators / low-level API / MessageParser by both codecs; non-trivial = both codecs accepted a name containing a compression pointer, a record with non-empty RDATA, or at least one whole-message item; distinct = distinct message octets. Part 2: one case = (operation sequence, builder); non-trivial = the built message contains at least one compression pointer (independent reader); distinct = distinct (sequence, builder)",
         "exhaustive": true,
-        "bound": {"parse_items": if quick { 2 } else { 3 }, "raw_len": rawlen, "raw_alphabet": raw, "build_depth": depth, "build_alphabet": OPS.iter().map(|o| op_desc(*o, &names)).collect::<Vec<_>>(), "build_long": format!("head: every sequence of 0..2 of {{alpha., c.alpha., beta., c.beta.}}; then k = 0..{} distinct unrelated one-label names; tail: every sequence of 1..{} of the four; all answer A records", LRU_FILLERS - 1, tail_max)},
+        "bound": {"parse_items": if quick { 2 } else { 3 }, "raw_len": rawlen, "raw_alphabet": raw, "build_depth": depth, "build_alphabet": OPS.iter().map(|o| op_desc(*o, &names)).collect::<Vec<_>>(), "build_long": format!("head: every sequence of 0..2 of {{alpha., c.alpha., beta., c.beta.}}; then k = 0..{} distinct unrelated one-label names; tail: every sequence of 1..{} of the four; all answer A records", LRU_FILLERS - 1, tail_max), "build_bit5": format!("every sequence of 1..{} items over {{a<b>.example., www.a<b>.example. : b in {:02x?}}} x {{owner of an A record, target of an NS record owned by example.}}", fold_len, FOLD_BYTES)},
         "parse_cases": parse_evals,
         "unit_view_outcomes": Value::Object(hist),
         "distinct_unit_outcomes_observed": outcomes_seen,
@@ -2301,6 +2423,8 @@ fn main() {
             "pointer-not-before-its-name-segment (absolute.rs:411-416, reversed.rs:328-333)": g(&WL_FORWARD),
             "pointer-into-the-12-octet-header (parse/mod.rs:240-243,329-332)": g(&WL_HEADER),
             "bounded-range parser: name needs octets beyond the range it was given (parse/mod.rs:240-243)": g(&WL_RANGE),
+            "typed: compressed name in SRV/DNAME/RRSIG/NSEC RDATA refused by the new codec (RFC 2782, 6672, 4034; dname.rs:36)": g(&WL_NOCOMP),
+            "typed: empty TXT refused by the new codec (txt.rs:39,121)": g(&WL_EMPTY_TXT),
         },
         "typed_strictness_differences_counted_not_asserted": json!(*STRICTNESS.lock().unwrap()),
         "build": {
